@@ -415,6 +415,88 @@ echo implode(",", $seen), "|", $ch->isClosed() ? "closed" : "open", "|", $ch->re
                                  "clause": "script level: %d spawned producers on an unbuffered Channel + a spawned collector, in %d rounds, GOMAXPROCS=%d: the script finishes (watchdog 8 s), every value exactly once, per-producer order, then closed|null|refused" % (P, R, g)})
                     break
     ck.cov["script_spawned_collector_runs"] = nspawn
+
+    # HOW the spawned producers / consumers are written (seeded changes C09-7, C09-9: closure values and closure
+    # expressions shared between spawns): "any number of spawned producers and consumers" must hold whether each
+    # spawn gets a closure created afresh (use ($p)), ONE closure value is spawned several times (worker pool; the body
+    # counts a by-value captured variable down), the closure has no use clause and takes everything from $this
+    # (started from a method on several objects), or it is an arrow-less callable stored in an array.
+    def form_script(form, P, K, cap, cons):
+        head = "$ch = new Channel(%d);\n$done = new Channel(0);\n$ids = new Channel(%d);\nfor ($p = 1; $p <= %d; $p++) { $ids->send($p); }\n" % (cap, P, P)
+        if form == "fresh":
+            prod = "for ($p = 1; $p <= %d; $p++) {\n    spawn(function() use ($ch, $done, $p) {\n        for ($i = 1; $i <= %d; $i++) { $ch->send($p * 100 + $i); }\n        $done->send($p);\n    });\n}\n" % (P, K)
+        elif form == "pool":
+            prod = ("$left = %d;\n$worker = function() use ($ch, $ids, $done, $left) {\n    $id = $ids->receive();\n    $i = 0;\n"
+                    "    while ($left > 0) { $i = $i + 1; $ch->send($id * 100 + $i); $left--; }\n    $done->send($id);\n};\n" % K) + "spawn($worker);\n" * P
+        elif form == "pool-acc":
+            prod = ("$sent = 0;\n$worker = function() use ($ch, $ids, $done, $sent) {\n    $id = $ids->receive();\n"
+                    "    while ($sent < %d) { $sent = $sent + 1; $ch->send($id * 100 + $sent); }\n    $done->send($id);\n};\n" % K) + "for ($p = 0; $p < %d; $p++) { spawn($worker); }\n" % P
+        elif form == "method":
+            head = ("class Producer {\n    public $id; public $ch; public $done;\n    function __construct($id, $ch, $done) { $this->id = $id; $this->ch = $ch; $this->done = $done; }\n"
+                    "    function start() {\n        spawn(function() {\n            for ($i = 1; $i <= %d; $i++) { $this->ch->send($this->id * 100 + $i); }\n            $this->done->send($this->id);\n        });\n    }\n}\n" % K) + head
+            prod = "for ($p = 1; $p <= %d; $p++) { $o = new Producer($p, $ch, $done); $o->start(); }\n" % P
+        elif form == "method-use":
+            head = ("class Producer {\n    public $id; public $ch; public $done;\n    function __construct($id, $ch, $done) { $this->id = $id; $this->ch = $ch; $this->done = $done; }\n"
+                    "    function start($k) {\n        spawn(function() use ($k) {\n            for ($i = 1; $i <= $k; $i++) { $this->ch->send($this->id * 100 + $i); }\n            $this->done->send($this->id);\n        });\n    }\n}\n") + head
+            prod = "for ($p = 1; $p <= %d; $p++) { $o = new Producer($p, $ch, $done); $o->start(%d); }\n" % (P, K)
+        else:
+            raise ValueError(form)
+        closer = "spawn(function() use ($ch, $done) {\n    for ($k = 0; $k < %d; $k++) { $done->receive(); }\n    $ch->close();\n});\n" % P
+        if cons == "main":
+            tail = "$got = [];\nwhile (true) { $v = $ch->receive(); if ($v === null) { break; } $got[] = $v; }\n"
+        else:
+            # a pool of consumers from ONE closure value with a by-value captured quota; the rest is drained by main
+            tail = ("$out = new Channel(%d);\n$quota = 2;\n$taker = function() use ($ch, $out, $quota) {\n    while ($quota > 0) { $v = $ch->receive(); if ($v === null) { break; } $out->send($v); $quota--; }\n    $out->send(-1);\n};\n"
+                    "spawn($taker); spawn($taker);\n$got = [];\n$fin = 0;\nwhile ($fin < 2) { $v = $out->receive(); if ($v == -1) { $fin = $fin + 1; } else { $got[] = $v; } }\n"
+                    "while (true) { $v = $ch->receive(); if ($v === null) { break; } $got[] = $v; }\n") % (P * K + 2)
+        return head + prod + closer + tail + 'echo implode(",", $got), "|", $ch->isClosed() ? "closed" : "open", "|", $ch->send(1) ? "sent" : "refused";\n'
+    nforms = 0
+    if not ck.replay or json.load(open(ck.replay)).get("mode") == "forms":
+        if ck.replay:
+            fcfgs = [json.load(open(ck.replay))["case"]]
+        else:
+            fcfgs = []
+            for form in ("fresh", "pool", "pool-acc", "method", "method-use"):
+                for (P, K, cap, cons) in [(3, 4, 2, "main"), (3, 4, 0, "main"), (2, 3, 1, "takers"), (4, 2, 0, "main")]:
+                    fcfgs.append({"form": form, "producers": P, "sends": K, "cap": cap, "consumers": cons, "gomaxprocs": rng.choice([1, 2, 4, 16])})
+        frep = 6 if ck.tier == "quick" else 60
+        fres = [None] * len(fcfgs)
+
+        def form_work(k):
+            c = fcfgs[k]
+            env = dict(os.environ, GOMAXPROCS=str(c["gomaxprocs"]))
+            src = form_script(c["form"], c["producers"], c["sends"], c["cap"], c["consumers"])
+            fres[k] = vworker.run_worker([racebin, "script"], [{"src": src, "repeat": frep}], per_case_timeout=120, env=env, restart_exit_codes=(3,))[0]
+        for b in range(0, len(fcfgs), 8):
+            fth = [threading.Thread(target=form_work, args=(k,)) for k in range(b, min(b + 8, len(fcfgs)))]
+            for t in fth:
+                t.start()
+            for t in fth:
+                t.join()
+        for c, o in zip(fcfgs, fres):
+            case = dict(c, src=form_script(c["form"], c["producers"], c["sends"], c["cap"], c["consumers"]))
+            if o is None or "worker_death" in o:
+                death_violation(ck, "forms", case, (o or {}).get("worker_death", {"signature": "driver-thread-failed"}))
+                continue
+            P, K = c["producers"], c["sends"]
+            for r in o.get("runs", []):
+                nforms += 1
+                parts = r["out"].strip().split("|")
+                ok = r["outcome"] == "ok" and len(parts) == 3
+                if ok:
+                    try:
+                        vals = [int(x) for x in parts[0].split(",") if x]
+                    except ValueError:
+                        vals = None
+                    ok = vals is not None and sorted(vals) == sorted(p_ * 100 + i for p_ in range(1, P + 1) for i in range(1, K + 1)) and parts[1:] == ["closed", "refused"]
+                    if ok and c["consumers"] == "main":
+                        ok = all([v for v in vals if v // 100 == p_] == [p_ * 100 + i for i in range(1, K + 1)] for p_ in range(1, P + 1))
+                if not ok:
+                    kind = "hang" if r["outcome"] == "hang" else ("throw" if r["outcome"] != "ok" else "wrong")
+                    ck.violation("script:forms:%s:%s:%s" % (c["form"], c["consumers"], kind), {"mode": "forms", "case": case, "impl_out": r,
+                                 "clause": "script level, producers written as `%s`, consumers `%s`: %d producers x %d sends -> every value p*100+i exactly once%s, then closed|refused" % (c["form"], c["consumers"], P, K, ", per-producer order" if c["consumers"] == "main" else "")})
+                    break
+    ck.cov["script_producer_consumer_form_runs"] = nforms
     ck.cov["script_level_runs"] = nscript
 
     # ---------------------------------------------------------------- evidence
